@@ -12,7 +12,7 @@ func checkC01(p *Prog, r *Report) {
 	r.Assume = []string{"message handlers are invoked only through the registered MsgServer (baseapp msg service router)"}
 	aolRules(p, r, "C01", func(tag string) bool {
 		switch tag {
-		case "family", "wmc", "schema", "record", "counter", "genesis":
+		case "family", "wmc", "schema", "content", "record", "counter", "genesis":
 			return true
 		}
 		return false
